@@ -50,7 +50,7 @@ type tmpl struct {
 	initCpus string // cpuset.cpus the runtime creates the container with
 	initMems string
 	oomAdj   int64    // Burstable only: oom_score_adj the kubelet derived from the memory request (0 = 999)
-	shape    string   // which optional sub-messages the runtime omits: "", no-linux, no-resources, no-cpu, no-memory, pod-no-linux
+	shape    string   // which optional sub-messages the runtime omits: "", no-linux, no-resources, no-cpu, no-memory, no-oomadj, no-period, no-quota, no-shares, no-limit, pod-no-linux
 	dev      [2]int64 // major, minor of a writable character device the container is given (0,0 = none)
 }
 
@@ -368,6 +368,22 @@ func (c *wctr) nri(state api.ContainerState, r res) *api.Container {
 		m.Linux.Resources.Memory = nil
 	case "no-oomadj":
 		m.Linux.OomScoreAdj = nil
+	case "no-period":
+		if m.Linux.Resources.GetCpu() != nil {
+			m.Linux.Resources.Cpu.Period = nil
+		}
+	case "no-quota":
+		if m.Linux.Resources.GetCpu() != nil {
+			m.Linux.Resources.Cpu.Quota = nil
+		}
+	case "no-shares":
+		if m.Linux.Resources.GetCpu() != nil {
+			m.Linux.Resources.Cpu.Shares = nil
+		}
+	case "no-limit":
+		if m.Linux.Resources.GetMemory() != nil {
+			m.Linux.Resources.Memory.Limit = nil
+		}
 	}
 	return m
 }
